@@ -38,6 +38,21 @@ def main():
     jobs.append(Job(P + 'VerifC05WrongParty', (), cfg=cfg))
     jobs.append(Job(P + 'VerifC05Witness', (), witness=True, cfg=cfg))
     res = chk.run_jobs(jobs)
+    chk.cleanup()
+    # distribution half: real MetadataStore / index / GroupContext handlers over the log contract (root package)
+    import c03
+    from wesym.contracts import orbit, seqchan
+    chk2 = c03.root_check('C05', ['C05/zz_verif_c05_dist.go'], extra_installers=[seqchan.install, orbit.install_relay])
+    PR = MOD + '.'
+    chk2.load([PR + 'VerifC05Distribute'])
+    dgrid = [(0, 0, 1), (0, 1, 1), (0, 2, 2), (1, 0, 1), (1, 1, 1), (1, 2, 3), (1, 3, 14)] if t == 'quick' else [(0, 0, 1), (0, 1, 1), (0, 2, 2), (0, 3, 8), (1, 0, 1), (1, 1, 1), (1, 2, 4), (1, 3, 14), (1, 4, 14)]
+    dj = []
+    for (sc, st, K) in dgrid:
+        for i in range(K):
+            dj.append(Job(PR + 'VerifC05Distribute', (sc, st), cfg=cfg, max_paths=400000, shard=(i, K) if K > 1 else None,
+                          label='VerifC05Distribute(%d,%d)#%d/%d' % (sc, st, i, K)))
+    res += chk2.run_jobs(dj)
+    chk = chk2
     finish(chk, res, t,
            explanation='Symbolic execution of GetShareableChainKey / encryptDeviceChainKey / decryptDeviceChainKey / groupIDToNonce / '
                        'RegisterChainKey / EdwardsToMontgomery over the term algebra (X25519 symmetric for honest points, box = sbox under '
